@@ -25,6 +25,7 @@ import (
 	"verifharness/fuseh"
 	"verifharness/gen"
 	"verifharness/memstore"
+	"verifharness/sparsestore"
 )
 
 // C17 — a read-only mount shows exactly the bundle.
@@ -51,6 +52,10 @@ type params struct {
 	// verification off, which is the mount's default, or on). "" = no faults.
 	BodyFault string `json:"body_fault,omitempty"`
 	NoVerify  bool   `json:"hash_verification_off,omitempty"`
+	// HugeLeaves > 0: the bundle holds one file of that many 2 MiB leaves plus HugeTail bytes (4 GiB and more), stored
+	// in a sparse store; it is mounted pre-downloaded and streamed and read around leaf boundaries
+	HugeLeaves int `json:"huge_file_leaves,omitempty"`
+	HugeTail   int `json:"huge_file_tail_bytes,omitempty"`
 }
 
 var parts = []string{"a", "b", "data", "file with space", "ünï-cødé", "x.y.z", ".dot", "UPPER", "日本", "a-b", "a_b", "0", "long-name-to-make-the-dirent-longer-than-usual"}
@@ -166,7 +171,130 @@ func gen17(seed int64, tier string) []drv.Case {
 		}
 		cs = append(cs, drv.Case{ID: fmt.Sprintf("%s-%d", cls, i), Class: cls, Params: drv.MustJSON(p)})
 	}
+	// files of 4 GiB and more (offsets beyond 32 bits): one case on the quick tier (about a minute, 4 GiB of scratch disk)
+	nh := 1
+	if tier == "thorough" {
+		nh = 3
+	}
+	for i := 0; i < nh; i++ {
+		cs = append(cs, drv.Case{ID: fmt.Sprintf("huge-file-%d", i), Class: "file>=4GiB", Params: drv.MustJSON(params{
+			Leaf: 2 << 20, HugeLeaves: 2048 + []int{3, 1, 40}[i], HugeTail: []int{777, 0, 1}[i], Seed: r.Int63(), NoVerify: i == 1})})
+	}
 	return cs
+}
+
+func runHuge17(p params, res *drv.Result) {
+	env := coreh.NewEnv(memstore.Config{})
+	blob := sparsestore.New("blob")
+	env.BlobOverride = blob
+	must := func(err error) {
+		if err != nil {
+			panic(fmt.Sprintf("set-up failed: %v", err))
+		}
+	}
+	must(env.CreateRepo(nil, "r"))
+	const L = int64(2 << 20)
+	size := int64(p.HugeLeaves)*L + int64(p.HugeTail)
+	g := sparsestore.MarkedLeaves(p.Seed, L)
+	src := sparsestore.New("src")
+	src.AddVirtual("big/huge.bin", size, g)
+	src.AddVirtual("big/small.txt", 5000, sparsestore.MarkedLeaves(p.Seed+1, 1000))
+	id, err := env.Upload(nil, "r", src, coreh.UploadOpts{Leaf: uint32(L), Concurrency: 2})
+	if err != nil {
+		res.Violate("upload-failed", "file>=4GiB", "upload of a %d byte file failed: %v", size, err)
+		return
+	}
+	res.Stat("huge_bytes_uploaded", blob.BytesPut)
+	_, entries, err := env.Entries(nil, "r", id)
+	must(err)
+	for _, e := range entries {
+		if e.NameWithPath == "big/huge.bin" && int64(e.Size) != size {
+			res.Violate("entry-size", "file>=4GiB", "bundle entry of the %d byte file says %d bytes", size, e.Size)
+			return
+		}
+	}
+	scratch, err := os.MkdirTemp(os.Getenv("VERIF_SCRATCH"), "c17-huge-")
+	must(err)
+	defer os.RemoveAll(scratch)
+	r := rand.New(rand.NewSource(p.Seed))
+	for _, streamed := range []bool{false, true} {
+		mode := map[bool]string{false: "pre-downloaded", true: "streamed"}[streamed]
+		dest := fmt.Sprintf("%s/staging-%v", scratch, streamed)
+		must(os.MkdirAll(dest, 0o755))
+		b := env.ReadBundle(nil, "r", id, coreh.LocalFS(dest), 2)
+		opts := []dfuse.Option{dfuse.Logger(coreh.Nop), dfuse.Streaming(streamed), dfuse.VerifyHash(!p.NoVerify)}
+		if streamed {
+			opts = append(opts, dfuse.CacheSize(64<<20), dfuse.Prefetch(0))
+		}
+		rofs, err := dfuse.NewReadOnlyFS(b, opts...)
+		if err != nil {
+			res.Violate("mount-failed", "file>=4GiB|"+mode, "NewReadOnlyFS over a bundle with a %d byte file: %v", size, err)
+			return
+		}
+		fs := fuseh.FS{F: rofs.VerifFS()}
+		d, err := fs.Lookup(1, "big")
+		if err != nil {
+			res.Violate("lookup-failed", "file>=4GiB|"+mode, "Lookup(/big): %v", err)
+			return
+		}
+		f, err := fs.Lookup(uint64(d.Child), "huge.bin")
+		if err != nil {
+			res.Violate("lookup-failed", "file>=4GiB|"+mode, "Lookup(/big/huge.bin): %v", err)
+			return
+		}
+		if int64(f.Attributes.Size) != size {
+			res.Violate("wrong-size", "file>=4GiB|"+mode, "%s mount: /big/huge.bin has size %d, the file has %d bytes", mode, f.Attributes.Size, size)
+			return
+		}
+		leaves := []int64{0, 1, 2, 1023, 1024, 2046, 2047, 2048, 2049, int64(p.HugeLeaves) - 1, int64(p.HugeLeaves)}
+		for i := 0; i < 24; i++ {
+			leaves = append(leaves, r.Int63n(int64(p.HugeLeaves)+1))
+		}
+		for _, li := range leaves {
+			for _, q := range []struct {
+				off int64
+				n   int
+			}{{li*L - 40, 100}, {li * L, 16}, {li*L + 7, 4096}, {li*L - 1, 2}} {
+				if q.off < 0 || q.off >= size {
+					continue
+				}
+				want := make([]byte, q.n)
+				if int64(q.n) > size-q.off {
+					want = want[:size-q.off]
+				}
+				g(q.off, want)
+				got, err := fs.ReadFile(uint64(f.Child), q.off, q.n)
+				res.Stat("huge_file_reads", 1)
+				if err != nil && !(errors.Is(err, io.EOF) && len(got) == len(want)) {
+					res.Violate("read-failed", "file>=4GiB|"+mode, "%s mount: ReadFile(/big/huge.bin, off=%d, n=%d) failed: %v", mode, q.off, q.n, err)
+					return
+				}
+				if !bytes.Equal(got, want) {
+					res.Violate("read-mismatch", "file>=4GiB|"+mode, "%s mount: ReadFile(/big/huge.bin, off=%d (leaf %d%+d), n=%d) returned %d bytes %x…, the file holds %d bytes %x… there (size %d)",
+						mode, q.off, q.off/L, q.off%L, q.n, len(got), head(got), len(want), head(want), size)
+					return
+				}
+			}
+		}
+		// past the end
+		if got, err := fs.ReadFile(uint64(f.Child), size, 10); len(got) != 0 || (err != nil && !errors.Is(err, io.EOF)) {
+			res.Violate("read-past-end", "file>=4GiB|"+mode, "%s mount: ReadFile at the end of the file returned %d bytes, err %v", mode, len(got), err)
+			return
+		}
+		os.RemoveAll(dest)
+		res.Stat("huge_file_mounts", 1)
+		res.Seen("huge_mount_mode", mode)
+	}
+	res.Nontrivial = true
+	res.Canon = fmt.Sprintf("huge %d+%d verify=%v", p.HugeLeaves, p.HugeTail, !p.NoVerify)
+	res.Sample = map[string]interface{}{"file_bytes": size, "leaves": p.HugeLeaves, "blob_bytes_sent": blob.BytesPut, "blob_bytes_kept_by_sparse_store": blob.BytesKept}
+}
+
+func head(b []byte) []byte {
+	if len(b) > 20 {
+		return b[:20]
+	}
+	return b
 }
 
 type rnode struct {
@@ -182,6 +310,10 @@ func run17(c drv.Case, res *drv.Result) {
 	drv.Params(c, &p)
 	cafsh.InstallWriteProgressMonitor()
 	res.Canon = string(c.Params)
+	if p.HugeLeaves > 0 {
+		runHuge17(p, res)
+		return
+	}
 	r := rand.New(rand.NewSource(p.Seed))
 	env := coreh.NewEnv(memstore.Config{ChunkedReader: []int{0, 0, 100, 4096}[p.Seed%4], EOFWithData: (p.Seed/4)%2 == 1})
 	must := func(err error) {
